@@ -58,6 +58,7 @@ func e3Prepare() {
 			cp(f, filepath.Join(dst, "hermes", "vsched", filepath.Base(f)))
 		}
 	}
+	cp(filepath.Join(mc.VerifDir(), "engine", "vsched", "vatomic", "vatomic.go.src"), filepath.Join(dst, "hermes", "vsched", "vatomic", "vatomic.go"))
 	os.WriteFile(filepath.Join(dst, "hermes", "verif_hooks_e3.go"), []byte(e3HooksSrc), 0o644)
 	// the file pool returns immutable file contents: the value read under its lock (path and content) is reported to the
 	// scheduler, which then need not distinguish the orders in which runs entered the pool (see vsched.Mutex.ValueTracked).
@@ -223,6 +224,19 @@ func buildBatchWorld(root string, days int) *batchWorld {
 		p5.Weather = e1Weather(0, []string{}, false)[:5] // 27 December .. 31 December
 		p5.Write(root)
 	}
+	// a weather station whose file has minimum and maximum temperature exchanged on 8 days of the period (the reader puts
+	// them right and says so), selected with fcode=WB
+	if wtxt, err := os.ReadFile(filepath.Join(root, "weather", "w", "W.csv")); err == nil {
+		ls := strings.Split(string(wtxt), "\n")
+		for i := 7; i < 15 && i < len(ls); i++ {
+			f := strings.Split(ls[i], ",")
+			if len(f) > 3 {
+				f[1], f[3] = f[3], f[1]
+				ls[i] = strings.Join(f, ",")
+			}
+		}
+		os.WriteFile(filepath.Join(root, "weather", "w", "WB.csv"), []byte(strings.Join(ls, "\n")), 0o644)
+	}
 	// a weather file with a gap inside the simulated period (selected with fcode=WG)
 	if wtxt, err := os.ReadFile(filepath.Join(root, "weather", "w", "W.csv")); err == nil {
 		ls := strings.Split(string(wtxt), "\n")
@@ -251,6 +265,9 @@ func buildBatchWorld(root string, days int) *batchWorld {
 		"A2": "project=p1 plotNr=1 fcode=W parameter=par poligonID=X",
 		// the same plot and soil id with groundwater taken from the polygon file (min/max 4-8 dm) instead of the soil file
 		"Ag": "project=p1 plotNr=1 fcode=W parameter=par poligonID=Q GroundWaterFrom=0",
+		// project p2 with the weather station whose minimum/maximum temperatures are exchanged on 8 days (two output ids)
+		"Cw":  "project=p2 plotNr=1 fcode=WB parameter=par poligonID=W8",
+		"Cw2": "project=p2 plotNr=1 fcode=WB parameter=par poligonID=W9",
 		// the same plot with groundwater from the time-series file
 		"As": "project=p1 plotNr=1 fcode=W parameter=par poligonID=S GroundWaterFrom=2",
 		// project p2 (scheduled irrigation, some events behind the end date) with automatic irrigation instead
